@@ -277,4 +277,12 @@ def judge (ops outs : List String) : String :=
 
 def suiteMm : Suite := { name := "msnap", model := Snap.modelConst, judge := judge }
 
+/-- `snap` / `osnap`: SnapSuite's judge, with a `kind=other` verdict re-classified when it is F32 on the
+    sample-less route (a series created by an append that never committed, restarts, a new series). -/
+def suiteSnap : Suite :=
+  { name := "snap", model := Snap.model, judge := fun ops outs => reclass (ops.zip outs) (Snap.judgeWith true ops outs) }
+
+def suiteOsnap : Suite :=
+  { name := "osnap", model := Snap.modelConst, judge := fun ops outs => reclass (ops.zip outs) (Snap.judgeWith false ops outs) }
+
 end Prom.Db.Msnap
